@@ -28,7 +28,7 @@ func (c *Ctx) NaturalTypes() []core.Ob {
 	if dec == nil {
 		return []core.Ob{{Rule: "T-NATURAL", Key: "decoder-dispatch", Status: core.Violated, Armed: true, Want: "decoder dispatch found", Got: "not found"}}
 	}
-	info := dec.pkg.TypesInfo
+	_ = dec.pkg.TypesInfo
 	var obs []core.Ob
 	var tvs []int64
 	for tv := range dec.cases {
@@ -45,42 +45,45 @@ func (c *Ctx) NaturalTypes() []core.Ob {
 		o := core.Ob{Rule: "T-NATURAL", Key: name + "->interface", Pos: c.P.Pos(cc.Pos()), Func: dec.fn, Armed: true, Status: core.OK,
 			Want: "a " + name + " decoded into an interface{} target is stored as " + nat}
 		found := false
-		ast.Inspect(cc, func(n ast.Node) bool {
-			inner, ok := n.(*ast.CaseClause)
-			if !ok || inner == cc {
-				return true
-			}
-			isIface := false
-			for _, e := range inner.List {
-				if k, ok := reflectKindName(info, e); ok && k == "Interface" {
-					isIface = true
-				}
-			}
-			if !isIface {
-				return true
-			}
-			found = true
-			stores := 0
-			ast.Inspect(inner, func(m ast.Node) bool {
-				call, ok := m.(*ast.CallExpr)
-				if !ok {
+		for _, hb := range c.withHelpers(dec.pkg, cc, dec.decl, 2) {
+			info := hb.pk.TypesInfo
+			ast.Inspect(hb.node, func(n ast.Node) bool {
+				inner, ok := n.(*ast.CaseClause)
+				if !ok || inner == cc {
 					return true
 				}
-				if fo := calleeObj(info, call); fo != nil && fo.Pkg() != nil && fo.Pkg().Path() == "reflect" && fo.Name() == "ValueOf" && len(call.Args) == 1 {
-					stores++
-					t := info.TypeOf(call.Args[0])
-					if t == nil || t.String() != nat {
-						o.Status, o.Got = core.Violated, fmt.Sprintf("stores a %v, the natural type of %s is %s", t, name, nat)
+				isIface := false
+				for _, e := range inner.List {
+					if k, ok := reflectKindName(info, e); ok && k == "Interface" {
+						isIface = true
 					}
 				}
-				return true
+				if !isIface {
+					return true
+				}
+				found = true
+				stores := 0
+				ast.Inspect(inner, func(m ast.Node) bool {
+					call, ok := m.(*ast.CallExpr)
+					if !ok {
+						return true
+					}
+					if fo := calleeObj(info, call); fo != nil && fo.Pkg() != nil && fo.Pkg().Path() == "reflect" && fo.Name() == "ValueOf" && len(call.Args) == 1 {
+						stores++
+						t := info.TypeOf(call.Args[0])
+						if t == nil || t.String() != nat {
+							o.Status, o.Got = core.Violated, fmt.Sprintf("stores a %v, the natural type of %s is %s", t, name, nat)
+						}
+					}
+					return true
+				})
+				if stores == 0 {
+					// a clause shared with concrete kinds that sets through SetInt/SetFloat/... cannot serve an interface target
+					o.Status, o.Got = core.Violated, "the clause taking reflect.Interface targets stores no reflect.ValueOf(<"+nat+">)"
+				}
+				return false
 			})
-			if stores == 0 {
-				// a clause shared with concrete kinds that sets through SetInt/SetFloat/... cannot serve an interface target
-				o.Status, o.Got = core.Violated, "the clause taking reflect.Interface targets stores no reflect.ValueOf(<"+nat+">)"
-			}
-			return false
-		})
+		}
 		if !found {
 			o.Status, o.Got = core.Violated, "no clause for reflect.Interface targets"
 		}
@@ -819,15 +822,19 @@ func (c *Ctx) OmitEmptyTestsField() []core.Ob {
 		return []core.Ob{o}
 	}
 	o.Pos, o.Func = c.P.Pos(fn.Pos()), core.FnName(fn)
-	// the emptiness test: a nbt function (reflect.Value) bool; the tag selector: a nbt function returning (byte, reflect.Value)
-	calls := callsIn(fn, func(n string, cc *ssa.CallCommon) bool {
-		sc := cc.StaticCallee()
-		if sc == nil || !inPkgs(sc, "nbt") || len(sc.Params) != 1 || sc.Params[0].Type().String() != "reflect.Value" || sc.Signature.Results().Len() != 1 {
-			return false
-		}
-		b, ok := sc.Signature.Results().At(0).Type().Underlying().(*types.Basic)
-		return ok && b.Kind() == types.Bool
-	})
+	// the emptiness test: a nbt function (reflect.Value) bool; the tag selector: a nbt function returning (byte, reflect.Value).
+	// Looked for in the encoder's dispatcher and in the helpers of the package it hands the struct fields to.
+	var calls []ssa.CallInstruction
+	for _, g := range c.withPkgCallees(fn, 2) {
+		calls = append(calls, callsIn(g, func(n string, cc *ssa.CallCommon) bool {
+			sc := cc.StaticCallee()
+			if sc == nil || !inPkgs(sc, "nbt") || len(sc.Params) != 1 || sc.Params[0].Type().String() != "reflect.Value" || sc.Signature.Results().Len() != 1 {
+				return false
+			}
+			b, ok := sc.Signature.Results().At(0).Type().Underlying().(*types.Basic)
+			return ok && b.Kind() == types.Bool
+		})...)
+	}
 	if len(calls) == 0 {
 		o.Status, o.Got = core.Violated, "no emptiness test (func(reflect.Value) bool) in the struct field loop"
 	}
